@@ -11,6 +11,7 @@
 //                              shows CRASH:<sig> / HANG)
 //   mrt <r> <c> <recipe> ;; ...  -> DenseMatrix round trip
 //   mload <hex>             -> DenseMatrix::loads + str + element access, staged
+//   deep <n>                -> loads of n nested Sin nodes, then hash / dumps / str, staged
 // "#ORACLE:<what>" is appended when the property itself fails on the case.
 #include <symengine/basic.h>
 #include <symengine/add.h>
@@ -362,6 +363,33 @@ static void process(const S &line, const Emit &emit)
         }
     } else if (cmd == "mload") {
         matrix_load(unhex(rest), emit);
+    } else if (cmd == "deep") {
+        // a stream of <n> nested Sin nodes around a Symbol: loads, then the recursive operations
+        unsigned n = (unsigned)std::stoul(rest);
+        std::ostringstream hs;
+        unsigned short ma = SYMENGINE_MAJOR_VERSION, mi = SYMENGINE_MINOR_VERSION;
+        S b = S("\x01", 1) + S((char *)&ma, 2) + S((char *)&mi, 2);
+        for (unsigned i = 0; i < n; i++) {
+            uint64_t id = 100000 + i;
+            b += S((char *)&id, 8) + S("\x01", 1) + S(1, (char)SYMENGINE_SIN);
+        }
+        uint64_t id = 7, one = 1;
+        b += S((char *)&id, 8) + S("\x01", 1) + S(1, (char)SYMENGINE_SYMBOL) + S((char *)&one, 8) + "x";
+        RCP<const Basic> l;
+        try {
+            l = Basic::loads(b);
+        } catch (...) {
+            emit(verif::exn_name());
+            return;
+        }
+        emit("OK depth=" + std::to_string(n) + "\thash=");
+        l->hash();
+        emit("ok redump=");
+        S b2 = l->dumps();
+        emit(b2 == b ? "same" : "ok");
+        emit(" str=");
+        S s = l->__str__();
+        emit("ok end");
     } else {
         emit("BADCASE");
     }
